@@ -369,6 +369,7 @@ func main() {
 	b, _ := json.Marshal(map[string]int{"configs": len(cfgs), "rejected_by_validator": rejected, "depth": depth})
 	r.Set("bounds", json.RawMessage(b))
 	r.Sample(map[string]interface{}{"config": cfgs[0].Name, "session": []string{"insert-cols-lit0(value 1)", "ext-select-binary"}})
+	pgPumpPhase(r, ks, thorough)    // interleavings of the PostgreSQL proxy's two pumps (pg_pumps.go)
 	mysqlPart(r, ks, thorough)      // MySQL half (mysql.go); last: it switches the process-wide SQL dialect
 	mysqlPumpPhase(r, ks, thorough) // interleavings of the MySQL proxy's two pumps (mysql_pumps.go)
 	r.Rule("BFS over statement histories (alphabet: write and read statement kinds x value index; row ids by position) per column configuration, each history executed from a fresh real proxy session against a fresh reference database and a shadow database; state = canonical shadow table contents + last statement kind; distinct_nontrivial = distinct (config, statement-kind sequence, violated?)")
